@@ -3204,6 +3204,14 @@ class SSHConnection(SSHPacketHandler, asyncio.Protocol):
         except OSError as exc:
             raise ChannelOpenError(OPEN_CONNECT_FAILED, str(exc)) from None
 
+        if not self._transport:
+            # The SSH connection was closed while connecting, so there's
+            # no channel left to tie this connection to. Don't leak it.
+            cast(SSHForwarder, peer).close()
+
+            raise ChannelOpenError(OPEN_CONNECT_FAILED,
+                                   'SSH connection closed')
+
         return SSHForwarder(cast(SSHForwarder, peer))
 
     async def forward_unix_connection(self, dest_path: str) -> SSHForwarder:
@@ -3228,6 +3236,12 @@ class SSHConnection(SSHPacketHandler, asyncio.Protocol):
             self.logger.info('  Forwarding UNIX connection to %s', dest_path)
         except OSError as exc:
             raise ChannelOpenError(OPEN_CONNECT_FAILED, str(exc)) from None
+
+        if not self._transport:
+            cast(SSHForwarder, peer).close()
+
+            raise ChannelOpenError(OPEN_CONNECT_FAILED,
+                                   'SSH connection closed')
 
         return SSHForwarder(cast(SSHForwarder, peer))
 
